@@ -584,7 +584,7 @@ def main():
                                     "(ATTEMPT_ONLINE is covered by the held-open probes of the random histories)")
         for ini, sub, toks in walks:
             jobs.append((ini, sub, True, False, ("walk", toks)))
-        for i in range(1200 if big else 170):
+        for i in range(600 if big else 300):
             ini, sub = rng.choice(INITIALS), rng.choice(SUBS)
             comm = rng.chance(5, 6)
             events = comm and rng.chance(1, 4)
